@@ -227,7 +227,13 @@ func genField(t *rapid.T, u int) fmtb.Field {
 		f.V = val.Text(s)
 	case 0:
 		// long value sized relative to the page
-		n := rapid.SampledFrom([]int{u - 40, u - 36, u - 35, u - 34, u, 2 * u, u/4 - 30, u / 4, 3*u + 7}).Draw(t, "ln") + rapid.IntRange(-3, 3).Draw(t, "ld")
+		// ... or, on small pages, a chain longer than the stretch between two
+		// pointer map pages of an auto-vacuum file
+		far := 3*u + 7
+		if u <= 2048 {
+			far = (u/5 + 10) * u
+		}
+		n := rapid.SampledFrom([]int{u - 40, u - 36, u - 35, u - 34, u, 2 * u, u/4 - 30, u / 4, 3*u + 7, far}).Draw(t, "ln") + rapid.IntRange(-3, 3).Draw(t, "ld")
 		if n < 0 {
 			n = 0
 		}
@@ -263,6 +269,7 @@ func genLayout(t *rapid.T) fmtb.Layout {
 		FillerEvery:  rapid.SampledFrom([]int{0, 0, 3, 7}).Draw(t, "filler"),
 		ShuffleCells: rapid.Bool().Draw(t, "shuffle"),
 		Gaps:         rapid.IntRange(0, 3).Draw(t, "gaps") == 0,
+		AutoVacuum:   rapid.SampledFrom([]int{0, 0, 0, 1, 2}).Draw(t, "autovacuum"),
 	}
 }
 
@@ -375,13 +382,14 @@ func TestC14Records(t *testing.T) {
 			r.Case(s, overflow || highbit || multivar,
 				fmt.Sprintf("rec:ps=%d", s.Img.PageSize), fmt.Sprintf("rec:overflow=%v", overflow), fmt.Sprintf("rec:widehdr=%v", widehdr),
 				fmt.Sprintf("rec:padded-varints=%v", padded), fmt.Sprintf("rec:depth=%d", built.Tables["t"].Shape.Depth), fmt.Sprintf("rec:idxdepth=%d", built.Tables["w"].IShape.Depth),
-				fmt.Sprintf("rec:in-header-size-stale=%v", s.Img.Header.StaleSize > 0), fmt.Sprintf("rec:text-not-utf8=%v", badText))
+				fmt.Sprintf("rec:in-header-size-stale=%v", s.Img.Header.StaleSize > 0), fmt.Sprintf("rec:text-not-utf8=%v", badText),
+				fmt.Sprintf("rec:autovacuum=%d", s.Img.Layout.AutoVacuum), fmt.Sprintf("rec:autovacuum-beyond-second-map-page=%v", s.Img.Layout.AutoVacuum > 0 && built.Pages > s.Img.PageSize/5+3))
 			if problem, sig := compare(built); problem != "" {
 				report(r, t, s, built, problem, sig)
 				return
 			}
 			// sampled cross validation of the builder itself
-			if vt.Sampled(s, 8) || (s.Img.Header.StaleSize > 0 && vt.Sampled(s, 2)) {
+			if vt.Sampled(s, 8) || ((s.Img.Header.StaleSize > 0 || s.Img.Layout.AutoVacuum > 0) && vt.Sampled(s, 2)) {
 				diff, err := bt.SQLiteAgrees(env.O, env.Dir, built)
 				if err != nil {
 					r.Harness(t, "cross validation: %v", err)
